@@ -51,6 +51,8 @@ type failedCase struct {
 	Key, Msg string
 	Job      job
 	Weak     bool // depends on deliveries of an earlier batch of the shard process: the replay is the whole batch, no re-run
+	Full     *job // the whole batch the case ran in: the replay when the reduced job does not reproduce the failure (the
+	// failure depends on a batch mate the attribution did not name, e.g. the row scanned before it in a multi-row dequeue)
 }
 
 // shardReply is what one shard process reports to the parent.
@@ -151,6 +153,9 @@ func explore(r *runner.Run, i, n int, deadline time.Time) *shardReply {
 				cs = append(cs, j.Cases[k])
 			}
 			fc := failedCase{Key: f.Key, Msg: f.Msg, Job: job{Backend: j.Backend, Flow: j.Flow, Cases: cs}, Weak: f.Weak}
+			if !f.Weak && len(cs) < len(j.Cases) {
+				fc.Full = &job{Backend: j.Backend, Flow: j.Flow, Cases: j.Cases}
+			}
 			if seen {
 				rep.Fails[at] = fc
 			} else {
@@ -258,8 +263,8 @@ func TestCheck(t *testing.T) {
 			continue
 		}
 		reported[f.Key] = true
-		recheck := func() bool { // re-run exactly these cases in a fresh application
-			again, _ := runJob(f.Job, time.Time{})
+		reproduces := func(j job) bool { // re-run exactly these cases in a fresh application
+			again, _ := runJob(j, time.Time{})
 			for _, g := range again.fails {
 				if g.Key == f.Key {
 					return true
@@ -267,10 +272,15 @@ func TestCheck(t *testing.T) {
 			}
 			return false
 		}
+		replay := f.Job
+		if !f.Weak && f.Full != nil && !reproduces(f.Job) && reproduces(*f.Full) {
+			replay = *f.Full // the failure needs the batch context
+		}
+		recheck := func() bool { return reproduces(replay) }
 		if f.Weak {
 			recheck = nil // depends on deliveries of an earlier batch of the shard process
 		}
-		r.Violation(f.Key, f.Msg, f.Job, recheck)
+		r.Violation(f.Key, f.Msg, replay, recheck)
 	}
 
 	r.Set("batches", jobs)
